@@ -42,9 +42,18 @@ def main():
         mod.run(chk)
         if a.no_evidence:
             chk.write_evidence = lambda *x, **k: None
+        if a.tier == "thorough" and not a.no_evidence and a.root == "/repo":
+            # checker self-validation (DESIGN s3.10): seeded mutants must be reported, benign edits not
+            from sa import mutate
+            if any(not o["ok"] for o in chk.obs):
+                chk.note("self-validation skipped: the unchanged tree already has failing obligations")
+            else:
+                okn, problems = mutate.validate(pid, verbose=False)
+                chk.note("self-validation: %d seeded mutants / benign edits behaved as expected" % okn)
+                chk.self_validation = {"as_expected": okn, "problems": problems}
+                if problems:
+                    raise Broken("self-validation failed (checker misses a seeded mutant or flags a benign edit): %s" % problems)
         rc = chk.finish()
-        if a.tier == "thorough" and rc == 0 and hasattr(mod, "self_validate"):
-            rc = mod.self_validate(chk) or 0
         return rc
     except Broken as e:
         print("ANALYSIS-BROKEN property=%s %s" % (pid, e))
